@@ -268,6 +268,7 @@ func runFCConcurrent(e *fcEnv, users, rounds int, cap0 int, callback bool) *Viol
 		fc.SetOnEvicted(func(*os.File, int) { runtime.Gosched() })
 	}
 	var uwg sync.WaitGroup
+	var barrier sync.RWMutex
 	var first atomic.Pointer[Violation]
 	stop := make(chan struct{})
 	for u := 0; u < users; u++ {
@@ -277,8 +278,10 @@ func runFCConcurrent(e *fcEnv, users, rounds int, cap0 int, callback bool) *Viol
 			defer uwg.Done()
 			for i := 0; i < rounds; i++ {
 				name := e.names[(u+i)%3]
+				barrier.RLock()
 				f, err := fc.Open(name)
 				if err != nil {
+					barrier.RUnlock()
 					first.CompareAndSwap(nil, viol("open-error|concurrent|"+errClass(err), i, "Open: %v", err))
 					return
 				}
@@ -291,8 +294,19 @@ func runFCConcurrent(e *fcEnv, users, rounds int, cap0 int, callback bool) *Viol
 				if err := fc.Close(f); err != nil {
 					first.CompareAndSwap(nil, viol("close-of-lent-handle-failed|concurrent|", i, "Close returned %v", err))
 				}
+				barrier.RUnlock()
 			}
 		}()
+	}
+	// After a resize the disturber waits until no handle is lent out (the
+	// users hold the barrier from Open to Close) and checks the descriptor
+	// bound for the capacity it has just set.
+	bound := func(i int, what string) {
+		barrier.Lock()
+		if n, c := e.openFDs(), fc.Cap(); n > c {
+			first.CompareAndSwap(nil, viol("too-many-descriptors|concurrent|"+what, i, "%d descriptors open on the test files with nothing lent out right after %s, capacity is %d", n, what, c))
+		}
+		barrier.Unlock()
 	}
 	disturberDone := make(chan struct{})
 	go func() {
@@ -308,10 +322,14 @@ func runFCConcurrent(e *fcEnv, users, rounds int, cap0 int, callback bool) *Viol
 				fc.Remove(e.names[i%3])
 			case 1:
 				fc.SetCacheSize(i % 4)
+				bound(i, "SetCacheSize")
 			case 2:
 				fc.Clear()
 			case 3:
 				fc.SetCacheSize(2)
+				if i%3 == 0 {
+					bound(i, "SetCacheSize")
+				}
 			case 4:
 				fc.Remove(e.names[(i+1)%3])
 			}
@@ -320,10 +338,22 @@ func runFCConcurrent(e *fcEnv, users, rounds int, cap0 int, callback bool) *Viol
 	uwg.Wait()
 	close(stop)
 	<-disturberDone
-	fc.Clear()
 	if v := first.Load(); v != nil {
+		fc.Clear()
 		return v
 	}
+	// Quiescent, nothing lent out: the descriptor bound must hold for the
+	// capacity the cache has now, and for capacity 0 after disabling it.
+	if n, c := e.openFDs(), fc.Cap(); n > c {
+		fc.Clear()
+		return viol("too-many-descriptors|concurrent|quiescent", 0, "%d descriptors open on the test files after the concurrent run with nothing lent out, capacity is %d", n, c)
+	}
+	fc.SetCacheSize(0)
+	if n := e.openFDs(); n > 0 {
+		fc.Clear()
+		return viol("too-many-descriptors|concurrent|after-disabling", 0, "%d descriptors open on the test files with nothing lent out after SetCacheSize(0)", n)
+	}
+	fc.Clear()
 	if left := e.openFDs(); left != 0 {
 		return viol("descriptor-leak|concurrent|", 0, "%d descriptor(s) still open after the concurrent run", left)
 	}
